@@ -127,7 +127,7 @@ var C16 = &sim.Scenario{
 	Components: components,
 	Runs: func(th bool) int {
 		if th {
-			return 20000
+			return 60000
 		}
 		return 400
 	},
